@@ -276,8 +276,22 @@ def rule_fft_siblings(rep):
         vi = alg.conv(init_fn)
         S2 = alg.conv(m["final"].fields["saved_frames"]) if "saved_frames" in m["final"].fields else None
         # structural check: frames_needed' = ceil((chunk_out − saved')/fft_out)·fft_in  (piecewise 0 when saved' ≥ chunk_out)
-        ok = ("ceil" in str(v) or "cdiv" in str(v)) and str(alg.sym("fft_size_in")) in str(v)
-        rep.ob(R, "FftFixedOut/next", ok, "frames_needed' = %s" % str(v)[:160], loc(m["fn"]), sample={"frames_needed_next": str(v)[:200]})
+        # exact form: frames_needed' = ceil(max(chunk_out − saved', 0) / fft_out) · fft_in   (nothing more: the output buffer has room for
+        # chunk_out + fft_out frames only because no block is requested once saved' ≥ chunk_out)
+        CO, FO_, FI_ = alg.sym("chunk_size_out"), alg.sym("fft_size_out"), alg.sym("fft_size_in")
+        ok = False
+        if S2 is not None:
+            cd = sp.Function("cdiv")
+            want = cd(sp.Piecewise((CO - S2, CO > S2), (0, True)), FO_) * FI_
+            try:
+                ok = sp.simplify(v - want) == 0
+            except Exception:
+                ok = False
+            if not ok:
+                # structural fallback: same expression up to the printed form
+                ok = str(v) == str(want)
+        rep.ob(R, "FftFixedOut/next", ok, "frames_needed' = %s ; must be exactly ceil(max(chunk_size_out − saved', 0)/fft_size_out)·fft_size_in" % str(v)[:200], loc(m["fn"]),
+               sample={"frames_needed_next": str(v)[:200]})
     # FftFixedIn: output_frames_max uses integer arithmetic over immutable fields and bounds output_frames_next structurally:
     fnm, vmax = getter_expr(facts, "FftFixedIn", "output_frames_max")
     alg = fftmodel.make_alg(facts, "FftFixedIn")
